@@ -29,7 +29,7 @@ use chrono::{DateTime, Utc};
 use serde_json::Value;
 use snafu::{ensure, OptionExt, ResultExt};
 use std::borrow::Cow;
-use std::collections::HashMap;
+use std::collections::{HashMap, HashSet};
 use std::convert::TryInto;
 use std::fmt::Display;
 use std::num::NonZeroU64;
@@ -202,6 +202,16 @@ impl RepositoryEditor {
             .signed
             .validate()
             .context(error::InvalidPathSnafu)?;
+
+        // A role name is the name of one metadata file and a client loads each name at most once:
+        // a repository that delegates the same name twice cannot be loaded.
+        let mut role_names = HashSet::new();
+        for name in signed_targets.signed.signed.role_names() {
+            ensure!(
+                role_names.insert(name),
+                error::DelegatedRolesNotConsistentSnafu { name: name.clone() }
+            );
+        }
 
         Ok(SignedRepository {
             root: self.signed_root,
